@@ -503,3 +503,6 @@ T('c14-twin-marginal-method-sum', 'C14', 'sample.py', "        phi[i] = np.sum(Y
 # F-split (C02): the accuracy of truncate is divided by sqrt(d - 1)
 M('c02-split-sqrt-d', 'C02', 'transformation.py', "            Z, p = orthogonalize(Y, d-1), 0\n            e = e / np.sqrt(d-1) * np.linalg.norm(Z[-1])", "            Z, p = orthogonalize(Y, d-1), 0\n            e = e / np.sqrt(d) * np.linalg.norm(Z[-1])")
 T('c02-twin-split-len', 'C02', 'transformation.py', "            Z, p = orthogonalize(Y, d-1), 0\n            e = e / np.sqrt(d-1) * np.linalg.norm(Z[-1])", "            Z, p = orthogonalize(Y, d-1), 0\n            e = e / np.sqrt(len(Y) - 1) * np.linalg.norm(Z[-1])")
+# U-exp-paths (C16): every return path of the stabilised norm carries the ledger exponent
+M('c16-norm-zero-drops-exponent', 'C16', 'act_one.py', "        return np.sqrt(v) if v > 0 else 0., p/2", "        if v <= 0:\n            return 0., 0\n        return np.sqrt(v), p/2")
+T('c16-twin-norm-two-returns', 'C16', 'act_one.py', "        return np.sqrt(v) if v > 0 else 0., p/2", "        if v <= 0:\n            return 0., p/2\n        return np.sqrt(v), p/2")
